@@ -315,6 +315,12 @@ class Discharger:
                 return "const: negation of the constant %d" % vals[0]
             if ak == "BoundsCheck" and 0 <= vals[1] < vals[0]:
                 return "const: index %d < length %d" % (vals[1], vals[0])
+        if site.kind == "K4" and site.what.startswith("to_digit:"):
+            args = site.node["args"]
+            if len(args) == 2:
+                r = self.eval_const(args[1])
+                if r is not None and 2 <= r <= 36:
+                    return "const: radix %d is within 2..=36" % r
         if site.kind == "K4" and site.what.startswith("int-op:") and site.what.endswith("::pow|") is False and "::pow" in site.what:
             args = site.node["args"]
             if len(args) == 2:
@@ -447,6 +453,62 @@ class Discharger:
                 return None
         return None
 
+    def widened_rule(self, site):
+        """Shift by a constant smaller than the width; Add/Sub/Mul whose operands were both widened from integer types
+        so narrow that the exact result fits the operation's type."""
+        if site.kind != "K3" or not site.what.startswith("Overflow:"):
+            return None
+        op = site.what.split(":")[1]
+        fn = self.fn
+        ops = site.node["ops"]
+        if len(ops) != 2:
+            return None
+
+        def ty_of(o):
+            p = op_place(o)
+            return fn.local_ty(p["l"]) if p is not None and not p["p"] else o.get("c", {}).get("ty")
+        ty = ty_of(ops[0])
+        bits = {"u8": 8, "i8": 8, "u16": 16, "i16": 16, "u32": 32, "i32": 32, "u64": 64, "i64": 64, "usize": 64, "isize": 64, "u128": 128, "i128": 128}.get(ty)
+        if op in ("Shl", "Shr"):
+            amt = self.eval_const(ops[1])
+            if bits and amt is not None and 0 <= amt < bits:
+                return "const: shift amount %d < %d bits" % (amt, bits)
+            return None
+        if op not in ("Add", "Sub", "Mul") or ty not in INT_RANGE:
+            return None
+
+        def src_range(o):
+            c = self.eval_const(o)
+            if c is not None:
+                return (c, c)
+            p = op_place(o)
+            if p is None or p["p"]:
+                return None
+            d = self.defs.single(p["l"])
+            if d and d[0] == "st" and d[3]["k"] == "=" and d[3]["rv"]["k"] == "cast" and d[3]["rv"].get("ck") == "IntToInt":
+                q = op_place(d[3]["rv"]["op"])
+                if q is not None:
+                    sty = fn.local_ty(q["l"]) if not q["p"] else None
+                    if sty is None:
+                        # a field such as `v.0`: follow one more definition
+                        return None
+                    s, dd = INT_RANGE.get(sty) or ((0, 0x10FFFF) if sty == "char" else None), INT_RANGE[ty]
+                    if s and dd[0] <= s[0] and s[1] <= dd[1]:
+                        return s
+            if d and d[0] == "st" and d[3]["k"] == "=" and d[3]["rv"]["k"] == "use":
+                return src_range(d[3]["rv"]["op"])
+            return None
+        ra, rb = src_range(ops[0]), src_range(ops[1])
+        if ra is None or rb is None:
+            return None
+        cands = [self._fold(op, x, y) for x in ra for y in rb]
+        if any(c is None for c in cands):
+            return None
+        lo, hi = min(cands), max(cands)
+        if INT_RANGE[ty][0] <= lo and hi <= INT_RANGE[ty][1]:
+            return "type: operands widened from %s and %s, exact result in [%d, %d] fits %s" % (ra, rb, lo, hi, ty)
+        return None
+
     def size_rule(self, site):
         """Add/Mul on usize values that are lengths / indices / len_utf8."""
         if site.kind != "K3" or not site.what.startswith("Overflow:"):
@@ -458,7 +520,11 @@ class Discharger:
         tys = []
         for o in site.node["ops"]:
             p = op_place(o)
-            tys.append(fn.local_ty(p["l"]) if p is not None and not p["p"] else o.get("c", {}).get("ty"))
+            if p is not None and p["p"]:
+                last = p["p"][-1]
+                tys.append(last.get("t") if isinstance(last, dict) and "f" in last else None)
+            else:
+                tys.append(fn.local_ty(p["l"]) if p is not None else o.get("c", {}).get("ty"))
         if not all(t == "usize" for t in tys):
             return None
         SIZEY = ("len", "len_utf8", "count", "capacity", "to_usize", "into_usize", "position", "find", "enumerate", "next", "size_hint", "min", "max",
